@@ -253,12 +253,13 @@ def entry_tokens(n, rng=None, pic_word=None, times=None, usage_word=None, is_wor
 
 
 def print_copybook(forest, rng=None, seq_numbers=False, final_newline=True, indent=2, width=71, one_line=False,
-                   comments=False, blank_lines=False, tokens=None, last_line_pad_to=None, margin_a=7):
+                   comments=False, blank_lines=False, tokens=None, last_line_pad_to=None, margin_a=7, one_digit=None):
     """Reference-format text: columns 1-6 sequence area (blank or numbered), column 7 blank,
     code from column 8, never beyond column `width` (71 keeps the line break inside the [7:72] slice).
     Long entries are continued on following lines (a new line, not a continuation indicator).
     `tokens(n)` may override the words of an entry.  With `last_line_pad_to` = k the last line is padded
-    with blanks to k columns before its period (to place the period at or beyond column 72)."""
+    with blanks to k columns before its period (to place the period at or beyond column 72).
+    `one_digit(n)` true: the level number of n, when below 10, is written with one digit (5 for 05); default: never."""
     lines = []
     ents = entries(forest)
     depth = {}
@@ -271,7 +272,7 @@ def print_copybook(forest, rng=None, seq_numbers=False, final_newline=True, inde
         set_depth(t, 0)
     for idx, n in enumerate(ents):
         toks = tokens(n) if tokens else entry_tokens(n, rng)
-        words = [f"{n['level']:02d}"] + toks
+        words = [str(n["level"]) if one_digit is not None and n["level"] < 10 and one_digit(n) else f"{n['level']:02d}"] + toks
         words[-1] = words[-1] + "."
         ind = margin_a + min(depth[id(n)] * indent, 24)
         cur = " " * ind + words[0]
